@@ -533,6 +533,12 @@ where
         is_some_and_any_in(token, walk::ending, is_boundary)
     }
 
+    fn has_starting_root<A>(token: Option<&Token<'_, A>>) -> bool {
+        is_some_and_any_in(token, walk::starting, |token| {
+            token.as_leaf().map_or(false, token::LeafKind::is_rooting)
+        })
+    }
+
     fn has_starting_zom<A>(token: Option<&Token<'_, A>>) -> bool {
         is_some_and_any_in(token, walk::starting, is_zom)
     }
@@ -683,6 +689,19 @@ where
                     inner,
                 ))
             },
+            // The alternation is preceded by a termination; disallow sub-globs that are rooted by
+            // a nested branch.
+            //
+            // For example, `{</foo:1,>,bar}`.
+            Only((inner, None)) | StartEnd((inner, None), _)
+                if left.is_none() && has_starting_root(Some(inner)) =>
+            {
+                Err(CorrelatedError::new(
+                    RuleErrorKind::RootedSubGlob,
+                    left,
+                    inner,
+                ))
+            },
             _ => Ok(()),
         }
     }
@@ -718,6 +737,19 @@ where
             Only((inner, Some(Wildcard(Tree { has_root: true }))))
             | StartEnd((inner, Some(Wildcard(Tree { has_root: true }))), _)
                 if left.is_none() && lower.is_unbounded() =>
+            {
+                Err(CorrelatedError::new(
+                    RuleErrorKind::RootedSubGlob,
+                    left,
+                    inner,
+                ))
+            },
+            // The repetition is preceded by a termination; disallow sub-globs with a zero lower
+            // bound that are rooted by a nested branch.
+            //
+            // For example, `<</foo:1,>:0,>`.
+            Only((inner, None)) | StartEnd((inner, None), _)
+                if left.is_none() && lower.is_unbounded() && has_starting_root(Some(inner)) =>
             {
                 Err(CorrelatedError::new(
                     RuleErrorKind::RootedSubGlob,
